@@ -1637,7 +1637,11 @@ class Engine:
         lo = clamp(sl.lower, z3.IntVal(0))
         hi = clamp(sl.upper, n)
         ln = z3.If(hi > lo, hi - lo, z3.IntVal(0))
-        return SeqV(ln, lambda i: seq.at(lo + i), seq.kind if seq.kind in ("tuple", "list") else "tuple")
+        lo_c = z3.simplify(lo)
+        at = (lambda i: seq.at(i)) if (z3.is_int_value(lo_c) and lo_c.as_long() == 0) else (lambda i: seq.at(lo + i))
+        if isinstance(base, ListV):
+            return ListV(ln, at)  # a slice of a list is a new list
+        return SeqV(ln, at, seq.kind if seq.kind in ("tuple", "list") else "tuple")
 
     def ev_Lambda(self, node, st):
         return FunV(node, st.env)
@@ -2380,6 +2384,11 @@ class Engine:
         r = K.returns
         if r == "Perm":
             return self.fresh_perm("res", st, assume=False)
+        if r == "List":  # a fresh mutable list of integers (the caller may go on appending to it)
+            n = fresh("res_n")
+            st.assume(n >= 0)
+            F = fresh_fun("res", z3.IntSort(), z3.IntSort())
+            return ListV(n, lambda i: IntV(F(i)))
         if r in ("Seq", "IntList", "gen"):
             n = fresh("res_n")
             st.assume(n >= 0)
